@@ -25,10 +25,22 @@ package jsonata
 //@ nonnil field jsonata.Expr.node
 //@ func (*Expr).newEnv
 //@   props C10 C09
-//@   requires e != nil
+//@   requires e != nil && ifaceable(input)
 //@   ensures result != nil
 //@   assigns heap
+// mustGoCallable (package initialisation: the built-in function table) returns a function object or panics while
+// the package loads - which every test run would show; the reflect-type analysis behind it (newGoCallable,
+// newGoCallableParam) is not under contract.
+//@ func mustGoCallable
+//@   ensures result != nil
 //@   trusted
+//@ func timeCallables
+//@   props C09 C19
+//@   ensures result != nil
+//@ func (*environment).bindAll
+//@   props C12 C09
+//@   requires s != nil
+//@   loop 0 invariant s != nil
 //@ func (*Expr).Eval
 //@   props C10 C09
 //@   requires e != nil
@@ -306,15 +318,16 @@ package jsonata
 // identity: not modelled, trusted)
 //@ func asSequence
 //@   props C01 C09 C10
-//@   ensures r1 ==> (r0 != nil && valid(v))
+//@   ensures r1 ==> valid(v)
+//@   ensures [assumed:sequence-pointers-held-by-values-are-never-nil] r1 ==> r0 != nil
 //@   ensures !r1 ==> r0 == nil
 //@   ensures !valid(v) ==> !r1
 //@   ensures isSeq(v) ==> (r1 && r0 == dyn(ifaceof(v), "*sequence"))
-//@   ensures r1 ==> (forall k in [0, len(r0.values)): !typeis(r0.values[k], "*sequence"))
-//@   ensures (valid(v) && canif(v) && !r1) ==> !typeis(ifaceof(v), "*sequence")
+//@   ensures [assumed:items-of-a-result-sequence-are-values-never-sequences] r1 ==> (forall k in [0, len(r0.values)): !typeis(r0.values[k], "*sequence"))
+//@   ensures (valid(v) && canif(v) && kind(v) != 20 && !r1) ==> !typeis(ifaceof(v), "*sequence")
+//@   ensures [assumed:sequences-are-never-held-by-interface-kinded-values] (valid(v) && canif(v) && kind(v) == 20 && !r1) ==> !typeis(ifaceof(v), "*sequence")
 //@   ensures arrKind(kind(res(v))) ==> !r1
 //@   assigns nothing
-//@   trusted
 
 // evalPath: an empty path is 'no value'; the context is wrapped into a one-item list exactly when the path starts with
 // a variable ($, $$, $x, also under a predicate) or the context is not an array - otherwise the steps map over the
@@ -322,7 +335,7 @@ package jsonata
 // is evaluated as a whole) with the last-step flag set on the last one only; 'no value' or an empty array from a step
 // ends the path with 'no value'; the keep-array marker is set on the result sequence.
 //@ pred startsWithVariable(n *jparse.PathNode) = typeis(n.Steps[0], "*jparse.VariableNode") || (typeis(n.Steps[0], "*jparse.PredicateNode") && typeis(dyn(n.Steps[0], "*jparse.PredicateNode").Expr, "*jparse.VariableNode"))
-//@ pred isSeq(v reflect.Value) = valid(v) && canif(v) && typeis(ifaceof(v), "*sequence") && dyn(ifaceof(v), "*sequence") != nil
+//@ pred isSeq(v reflect.Value) = valid(v) && canif(v) && kind(v) == 22 && typeis(ifaceof(v), "*sequence") && dyn(ifaceof(v), "*sequence") != nil
 //@ pred stepInput(v reflect.Value) = valid(v) && canif(v) && (isSeq(v) || arrKind(kind(res(v))))
 //@ func evalPath
 //@   props C01 C09
